@@ -193,6 +193,20 @@ def d_case(P, seq):
     return "d %d %s" % (P, ",".join(opw(o) for o in seq) if seq else ".")
 
 
+def hold(form, subs):
+    """a result-holding group: the results of all gets among `subs` are observed only after every sub-operation was made
+    (form r: const std::string& bindings, a: auto&& bindings, m: alternately, c: arguments of one call expression)"""
+    return ("h" + form,) + tuple(":".join(str(x) for x in o) for o in subs)
+
+
+def e_flat(op_word):
+    """the plain operations of one op word of an "e" case, as field lists (a holding group contributes its sub-operations)"""
+    f = op_word.split(".")
+    if len(f[0]) == 2 and f[0][0] == "h":
+        return [x.split(":") for x in f[1:]]
+    return [f]
+
+
 def e_case(seq):
     return "e %s" % (",".join(opw(o) for o in seq) if seq else ".")
 
@@ -214,9 +228,10 @@ class C19(Check):
                  "arbitrary operation lists, for every world of existing files/symbols) + extraction-based differential test against "
                  "the C++: setenv/unsetenv for env::get, and real dlopen of two tiny shared objects and of the program itself with "
                  "dlopen/dlsym/dlclose counted per handle through linker --wrap")
-    level_text = ("Twenty-one theorems proved in Coq. env::get: for EVERY getenv function, name and default — a set variable yields its "
+    level_text = ("Twenty-five theorems proved in Coq. env::get: for EVERY getenv function, name and default — a set variable yields its "
                   "exact value also when that is the empty string, an unset one yields the default, the no-default form raises "
-                  "exactly when unset. dl: for ALL lists of open / load / get / copy-construct / move-construct / copy-assign / "
+                  "exactly when unset; the result of a get is a value — over ALL histories of setenv / unsetenv / the three gets / late reads, a "
+                  "held result keeps the outcome it had when get returned whatever gets and environment changes follow, two held results are independent. dl: for ALL lists of open / load / get / copy-construct / move-construct / copy-assign / "
                   "move-assign / swap / destroy / call operations and every world — dlclose is called at most once per handle and never on NULL, a handle is closed exactly when no owner "
                   "(library object, symbol, raw handle, or a copy / assignment target of either) is left, an assignment makes the "
                   "target hold the source's handle and function and releases its previous one, a moved-from object owns nothing, "
@@ -255,7 +270,9 @@ class C19(Check):
             "get without default} x 2 names x values/defaults {'', 'x'}, then random sequences with names and values over arbitrary "
             "non-NUL bytes (values also empty and up to 20 000 bytes; thorough 200 000), fixed cases with values of 64 KiB-70 000 bytes "
             "(thorough: 300 000 and 1 100 000) and names of 300 and 5000 bytes through all three overloads, defaults equal to / different from the "
-            "value; dl: every applicable sequence of depth 3 (thorough: also depth 4 without the scoped/quiet/read operations) over {open a / b / missing, load existing / only-in-a / "
+            "value; result-holding forms: results of two (exhaustive over 9 environments x 2 names x every overload) or three (random) get calls held at the "
+            "same time as const std::string& / auto&& bindings or as the arguments of one call expression, and results held across setenv / "
+            "unsetenv of the same variable, all observed only after the last sub-operation; dl: every applicable sequence of depth 3 (thorough: also depth 4 without the scoped/quiet/read operations) over {open a / b / missing, load existing / only-in-a / "
             "missing symbol — each on a named library object, on std::move(named), on a temporary copy and on a temporary built from the "
             "file name —, get, copy-construct, move-construct, copy-assign, move-assign (both also onto itself), swap, destroy, "
             "call, stale error} on a pool of 3 owners, then random sequences of length <= 10 (thorough <= 16) on a pool of 4 that "
@@ -329,6 +346,58 @@ class C19(Check):
                 else:
                     seq.append(("n", hx(n)))
             yield e_case(seq), "env-rand"
+        # ---- env, result-holding forms: two results held at the same time, every overload x set / set to "" / unset,
+        #      as const std::string& / auto&& bindings and as the arguments of one call expression
+        hn = ["VQA", "VQB"]
+        def gets(n, pos):
+            return [("g", hx(n), hx("dflt%d" % pos)), ("g", hx(n), hx("")), ("d", hx(n)), ("n", hx(n))]
+        envs = [[a, b] for a in ([("u", hx("VQA"))], [("s", hx("VQA"), hx(""))], [("s", hx("VQA"), hx("alpha"))])
+                for b in ([("u", hx("VQB"))], [("s", hx("VQB"), hx(""))], [("s", hx("VQB"), hx("beta"))])]
+        for env in envs:
+            pre = [o for part in env for o in part]
+            for n1 in hn:
+                for n2 in hn:
+                    for g1 in gets(n1, 1):
+                        for g2 in gets(n2, 2):
+                            for form in "rac":
+                                yield e_case(pre + [hold(form, [g1, g2])]), "env-hold2"
+        # a result held across setenv / unsetenv of the SAME variable, and across a further get of it
+        for form in "ram":
+            for st in ([("u", hx("VQA"))], [("s", hx("VQA"), hx(""))], [("s", hx("VQA"), hx("alpha"))]):
+                for g1 in gets("VQA", 1):
+                    for mid in (("s", hx("VQA"), hx("changed")), ("s", hx("VQA"), hx("")), ("u", hx("VQA"))):
+                        for g2 in gets("VQA", 2) + [None]:
+                            yield e_case(st + [hold(form, [g1, mid] + ([g2] if g2 else []))] + [("n", hx("VQA"))]), "env-hold-across-change"
+        # three results at once, random overloads / states / values (also long values and defaults), sets and unsets in between
+        for _ in range(600 if quick else 6000):
+            pool = [rname() for _ in range(rng.randint(1, 3))]
+            seq = []
+            for n in pool:
+                if rng.random() < 0.7:
+                    seq.append(("s", hx(n), hx(rval(3000) if rng.random() < 0.8 else "")))
+            for _ in range(rng.randint(1, 3)):
+                form = rng.choice("ramc")
+                subs = []
+                ng = rng.randint(2, 3)
+                k = 0
+                while k < ng:
+                    n = rng.choice(pool)
+                    r = rng.random()
+                    if form != "c" and r < 0.25:
+                        subs.append(("s", hx(n), hx(rval(3000))) if rng.random() < 0.6 else ("u", hx(n)))
+                        continue
+                    k += 1
+                    if r < 0.55:
+                        subs.append(("g", hx(n), hx(rng.choice(["", "dflt", rval(3000)]))))
+                    elif r < 0.75:
+                        subs.append(("d", hx(n)))
+                    else:
+                        subs.append(("n", hx(n)))
+                seq.append(hold(form, subs))
+                if rng.random() < 0.5:
+                    n = rng.choice(pool)
+                    seq.append(rng.choice([("s", hx(n), hx(rval(3000))), ("u", hx(n)), ("n", hx(n)), ("g", hx(n), hx("dflt"))]))
+            yield e_case(seq), "env-hold-rand"
         # ---- env, sizes beyond the sampled range: values of 64 KiB and more (also '='-laden), names of 300 and 5000 bytes,
         #      each read through all three overloads, changed, read again, unset, read again
         for vlen in (65535, 65536, 70001) + (() if quick else (300000, 1100000)):
@@ -453,13 +522,13 @@ class C19(Check):
             # a get whose variable is set at that moment (tracked on the case text)
             cur = set()
             for o in (w[1].split(",") if w[1] != "." else []):
-                f = o.split(".")
-                if f[0] == "s":
-                    cur.add(f[1])
-                elif f[0] == "u":
-                    cur.discard(f[1])
-                elif f[1] in cur:
-                    return True
+                for f in e_flat(o):
+                    if f[0] == "s":
+                        cur.add(f[1])
+                    elif f[0] == "u":
+                        cur.discard(f[1])
+                    elif f[1] in cur:
+                        return True
             return False
         if w[0] == "d":
             if "raise" in iobs:
@@ -479,7 +548,8 @@ class C19(Check):
     def signature(self, case, mobs, iobs):
         w = case.split()
         ops = w[1] if w[0] == "e" else w[2]
-        kinds = tuple(sorted(set(o.split(".")[0] for o in ops.split(","))))
+        kinds = tuple(sorted(set(o.split(".")[0] for o in ops.split(",")) |
+                             (set("h:" + x.split(":")[0] for o in ops.split(",") if o[:1] == "h" for x in o.split(".")[1:]) if w[0] == "e" else set())))
         closed_early = any(":1" in st for st in iobs.split(";")[:-1])
         return (w[0], kinds, min(ops.count(","), 16) // 2, "raise" in iobs, closed_early, min(len(case) // 64, 8))
 
@@ -491,9 +561,24 @@ class C19(Check):
             rest = ops[:i] + ops[i + 1:]
             yield " ".join(w[:k] + [",".join(rest) if rest else "."])
         if w[0] == "e":
+            # a holding group: without one sub-operation; with the same sub-operations made one after the other
+            for i, o in enumerate(ops):
+                f = o.split(".")
+                if len(f[0]) == 2 and f[0][0] == "h":
+                    if len(f) > 3 or (len(f) > 2 and f[0] != "hc"):
+                        for j in range(1, len(f)):
+                            yield " ".join(w[:k] + [",".join(ops[:i] + [".".join(f[:j] + f[j + 1:])] + ops[i + 1:])])
+                    yield " ".join(w[:k] + [",".join(ops[:i] + [x.replace(":", ".") for x in f[1:]] + ops[i + 1:])])
+                    for j in range(1, len(f)):
+                        g = f[j].split(":")
+                        if len(g) == 3 and g[2] != "-" and len(g[2]) > 2:
+                            for nv in ((g[2][:len(g[2]) // 4 * 2], g[2][len(g[2]) // 4 * 2:]) if len(g[2]) > 16 else [g[2][:-2]]):
+                                yield " ".join(w[:k] + [",".join(ops[:i] + [".".join(f[:j] + [":".join(g[:2] + [nv or "-"])] + f[j + 1:])] + ops[i + 1:])])
             # shorten values / defaults (halve, then byte by byte when short)
             for i, o in enumerate(ops):
                 f = o.split(".")
+                if f[0][:1] == "h":
+                    continue
                 if len(f) == 3 and f[2] != "-":
                     v = f[2]
                     cands = []
